@@ -14,6 +14,7 @@ import (
 	"github.com/ory/keto/internal/check/checkgroup"
 	"github.com/ory/keto/internal/relationtuple"
 	"github.com/ory/keto/ketoapi"
+	"github.com/ory/keto/verifsim/simlock"
 )
 
 type ExecPlan struct {
@@ -27,6 +28,7 @@ type ExecPlan struct {
 	CountSQL    bool    // count SQL statements at the L2 seam
 	Late        bool    // overtaken storage calls may complete late (stragglers)
 	StartAfter  []int   // request i starts once this many storage calls have been released (default 0)
+	ParkSQL     bool    // every SQL statement (L2 seam) is a scheduling point too: requests interleave between the statements of one storage call
 }
 
 func NoFaults() ExecPlan { return ExecPlan{CancelAfter: -1, MaxSteps: 20000} }
@@ -206,6 +208,25 @@ func (e *Env) Exec(tape *Tape, reqs []*Request, plan ExecPlan) *ExecResult {
 					}
 				}
 				return int(doneN.Load()) == len(reqs)
+			}
+			if plan.ParkSQL {
+				// pop holds one mutex per SQLite database around every statement: it is
+				// acquired under the scheduler (TryLock), so that a request parked at a
+				// statement does not leave the others blocked inside a sync.Mutex
+				s.LockSites = "dialect_sqlite"
+				simlock.Install(&simlock.Hooks{Acquire: s.AcquireLock, Released: s.LockReleased})
+				defer simlock.Install(nil)
+				theHub.mu.Lock()
+				theHub.hook = func(ctx context.Context, rec *StmtRec) error {
+					err, _ := s.Enter(ctx, "sql", fmt.Sprintf("sql %s %s", rec.Kind, rec.Table))
+					return err
+				}
+				theHub.mu.Unlock()
+				defer func() {
+					theHub.mu.Lock()
+					theHub.hook = nil
+					theHub.mu.Unlock()
+				}()
 			}
 			if plan.L2At > 0 {
 				theHub.Arm(plan.L2At, plan.L2Kind)
